@@ -25,6 +25,7 @@ var (
 	tGroup   = reflect.TypeOf(js.GroupExpr{})
 	tLiteral = reflect.TypeOf(js.LiteralExpr{})
 	tTmpl    = reflect.TypeOf(js.TemplateExpr{})
+	tComment = reflect.TypeOf(js.Comment{})
 )
 
 // Opts maps 0..3 to the four js.Options values.
@@ -211,8 +212,8 @@ func offsetIn(base []byte, d []byte) int {
 
 // treeLiterals returns the offsets (in the parsed buffer) of the regular expression literals and of all literal data in
 // expression position found in the tree: LiteralExpr nodes held in an expression slot, and the parts of TemplateExpr nodes.
-func treeLiterals(ast *js.AST, base []byte) (regexps map[int]bool, exprs map[int]bool) {
-	regexps, exprs = map[int]bool{}, map[int]bool{}
+func treeLiterals(ast *js.AST, base []byte) (regexps map[int]bool, exprs map[int]bool, comments map[string]bool) {
+	regexps, exprs, comments = map[int]bool{}, map[int]bool{}, map[string]bool{}
 	var walk func(v reflect.Value, viaIface bool, depth int)
 	walk = func(v reflect.Value, viaIface bool, depth int) {
 		if depth > 100000 {
@@ -242,6 +243,10 @@ func treeLiterals(ast *js.AST, base []byte) (regexps map[int]bool, exprs map[int
 						exprs[o] = true
 					}
 				}
+				return
+			}
+			if t == tComment {
+				comments[string(v.Interface().(js.Comment).Value)] = true
 				return
 			}
 			if t == tTmpl {
@@ -365,6 +370,7 @@ type Result struct {
 	Accepted bool
 	Mismatch bool
 	Rule     string // first rule that failed (pre-check only; the verdict is the trace specification's)
+	Key      string // rule, construct and Options value of the first failure
 	Tokens   int
 	Text1    string
 }
@@ -422,9 +428,10 @@ func RoundTrip(w *tr.Writer, src []byte, opt int, meta tr.E) Result {
 		open[k] = v
 	}
 	w.Ev("Open", open)
-	fail := func(rule string) {
+	fail := func(rule string, detail ...interface{}) {
 		if !res.Mismatch {
 			res.Mismatch, res.Rule = true, rule
+			res.Key = fmt.Sprint(rule, opt, detail)
 		}
 	}
 	if pan != "" {
@@ -434,7 +441,7 @@ func RoundTrip(w *tr.Writer, src []byte, opt int, meta tr.E) Result {
 	}
 	w.Ev("Parse1", tr.E{"ok": true})
 
-	regexps, exprs := treeLiterals(ast1, base1)
+	regexps, exprs, comments := treeLiterals(ast1, base1)
 	lits, ntok, lexok := sourceLiterals(src, o.Inline, regexps, exprs)
 	res.Tokens = ntok
 	w.Buf()[0]["ntok"] = ntok
@@ -450,7 +457,7 @@ func RoundTrip(w *tr.Writer, src []byte, opt int, meta tr.E) Result {
 
 	// (d) literal fidelity
 	miss := missingLiterals(lits, text1)
-	missing, mkinds, other := []int{}, []string{}, []string{}
+	missing, mkinds, other, intree := []int{}, []string{}, []string{}, []bool{}
 	var mtext []int
 	for _, i := range miss {
 		if lits[i].Expr {
@@ -459,17 +466,18 @@ func RoundTrip(w *tr.Writer, src []byte, opt int, meta tr.E) Result {
 			}
 			missing = append(missing, lits[i].Off)
 			mkinds = append(mkinds, lits[i].Kind)
+			intree = append(intree, (lits[i].Kind != "comment" && lits[i].Kind != "shebang") || comments[string(lits[i].Text)])
 		} else {
 			other = append(other, lits[i].Kind)
 		}
 	}
-	lev := tr.E{"lexed": lexok, "n": len(lits), "missing": missing, "kinds": mkinds, "other": other}
+	lev := tr.E{"lexed": lexok, "n": len(lits), "missing": missing, "kinds": mkinds, "other": other, "intree": intree}
 	if mtext != nil {
 		lev["first"] = mtext
 	}
 	w.Ev("Literals", lev)
 	if len(missing) > 0 {
-		fail("literal-altered")
+		fail("literal-altered", mkinds[0], intree[0])
 	}
 
 	// (a) the printed text is accepted under the same Options
@@ -485,7 +493,7 @@ func RoundTrip(w *tr.Writer, src []byte, opt int, meta tr.E) Result {
 			ev["etext"] = firstLine(err2)
 		}
 		w.Ev("Parse2", ev)
-		fail("reparse-fails")
+		fail("reparse-fails", firstLine(err2))
 		return res
 	}
 	w.Ev("Parse2", tr.E{"ok": true})
@@ -508,7 +516,7 @@ func RoundTrip(w *tr.Writer, src []byte, opt int, meta tr.E) Result {
 	}
 	if d != nil {
 		w.Ev("Trees", tr.E{"equal": false, "path": d.Path, "construct": d.Construct, "what": d.What})
-		fail("tree-differs")
+		fail("tree-differs", d.Construct)
 	} else {
 		w.Ev("Trees", tr.E{"equal": true})
 	}
@@ -537,6 +545,7 @@ func RoundTrip(w *tr.Writer, src []byte, opt int, meta tr.E) Result {
 		fail("not-a-fixed-point")
 	}
 	w.Ev("Print2", ev)
+	w.Ev("Done", tr.E{})
 	return res
 }
 
